@@ -243,16 +243,23 @@ template <typename Solver, typename PB, typename NLPB>
 void SolverNLHandlerImpl<Solver, PB, NLPB>::OnHeader(const NLHeader &h) {
   num_options_ = h.num_ampl_options;
   std::copy(h.ampl_options, h.ampl_options + num_options_, options_);
-  if (after_header_) {
-    solver_.notify_start_opts();
-    after_header_();
+  try {
+    if (after_header_) {
+      solver_.notify_start_opts();
+      after_header_();
+    }
+    solver_.notify_end_opts();
+    /// Clarify objectives
+    int objno = solver_.objno_specified();
+    if (objno > h.num_objs && solver_.is_objno_specified())
+      throw InvalidOptionValue("objno", objno,
+                               fmt::format("expected value between 0 and {}", h.num_objs));
+  } catch (...) {
+    // The error is reported via the .sol file, which must carry
+    // the numbers of variables / constraints of the NL header
+    try { Base::OnHeader(h); } catch (...) { }
+    throw;
   }
-  solver_.notify_end_opts();
-  /// Clarify objectives
-  int objno = solver_.objno_specified();
-  if (objno > h.num_objs && solver_.is_objno_specified())
-    throw InvalidOptionValue("objno", objno,
-                             fmt::format("expected value between 0 and {}", h.num_objs));
   Base::OnHeader(h);
 #ifndef MP_DATE
   CheckDemoVersion(h);
